@@ -119,6 +119,7 @@ type VC struct {
 	litFuncs map[string]func(string) string // uninterpreted string functions evaluable on literals
 	litAxioms map[string]func(string) ([]string, []string) // per-literal axioms of other evaluable functions
 	seenObl  map[string]bool
+	useFS     bool                // a contract in force mentions field sets (append facts are emitted)
 	pureFrame bool                // the root contract says "assigns \nothing"
 	fsAnchor bool                 // field sets mentioned now belong to a loop-head assumption
 	fsAnchors map[string][]int    // indices (into fsSeen) of loop-head mentions
